@@ -134,4 +134,22 @@ theorem enterSubshell_reach (st : Trap.State) (ii ks : Bool) :
     exact h1 _ h
   · exact h
 
+theorem gsSetInternal_reach (sys : Sys) (e : Option Trap.GrandState) (sig : Nat) (d : Disp) :
+    SysReach sys (Trap.GrandState.setInternal sys e sig d).1 := by
+  unfold Trap.GrandState.setInternal
+  split
+  · split
+    · exact .refl sys
+    · exact setDisposition_reach sys sig d
+  · exact sysReach_ite _ sys sig _
+
+theorem setInternal_reach (st : Trap.State) (sig : Nat) (d : Disp) :
+    SysReach st.sys (Trap.setInternal st sig d).sys := gsSetInternal_reach _ _ _ _
+
+/-- `enable_/disable_internal_dispositions_for_stoppers` -/
+theorem stoppers_reach (st : Trap.State) :
+    SysReach st.sys (Trap.enableStoppers st).sys ∧ SysReach st.sys (Trap.disableStoppers st).sys :=
+  ⟨((setInternal_reach st _ _).trans (setInternal_reach _ _ _)).trans (setInternal_reach _ _ _),
+   ((setInternal_reach st _ _).trans (setInternal_reach _ _ _)).trans (setInternal_reach _ _ _)⟩
+
 end YashModel.Fork
